@@ -1,5 +1,7 @@
 import TlsProofs.TranscriptFlows
 import TlsProofs.TranscriptHrr
+import TlsModel.Gen.Transcript
+import TlsModel.TranscriptKeys
 /-
   C04 — tampering with the handshake in flight cannot yield two endpoints that disagree.
 
@@ -280,5 +282,162 @@ theorem truncate_append_binders (body : Bytes) (binders : List Bytes) :
   rw [List.length_append, hlen, Nat.add_sub_cancel, List.take_left' rfl]
 
 example : pskTruncate ([1, 2, 3] ++ encBinders [[7, 7], [8]]) [[7, 7], [8]] = [1, 2, 3] := by decide
+
+/-! ## the regenerated tables (translate/gen_transcript.py reads them from the source on every run)
+
+`TlsModel/Gen/Transcript.lean` is what the code says *now*; the theorems below tie it to the
+hand-written model.  An edit of the sentinel / SCSV conditions, of what the record layer hashes,
+of the transcript a Derive-Secret / Finished / CertificateVerify uses, or of the <= 1.2 labels and
+EMS snapshot makes one of them false (a shape the translator does not understand evaluates to
+`none` / an unknown kind and fails as well). -/
+open GenBase Keys
+
+/-- the server's sentinel writes, as read from the source, compute `serverRandomTail` -/
+theorem generated_sentinel_write_is_model (smax v : Version) (rnd : Bytes)
+    (hs : smax ∈ knownVersions) (hv : v ∈ knownVersions) :
+    applyWrites { version := v, maxVersion := smax } Gen.sentinelWrites rnd
+      = some (serverRandomTail smax v rnd) := by
+  simp only [knownVersions, List.mem_cons, List.not_mem_nil, or_false] at hs hv
+  rcases hs with rfl | rfl | rfl | rfl | rfl <;> rcases hv with rfl | rfl | rfl | rfl | rfl <;> rfl
+
+/-- the client's sentinel checks, as read from the source, compute `clientChecksSentinel`; the
+    constants are used nowhere else -/
+theorem generated_sentinel_check_is_model (cmax v : Version) (tail : Bytes)
+    (hc : cmax ∈ knownVersions) (hv : v ∈ knownVersions) :
+    firstAlert { selfVersion := v, maxVersion := cmax, tail := tail } Gen.sentinelChecks
+      = some (verdictAlert (clientChecksSentinel cmax v tail)) ∧ Gen.sentinelMentions = 5 := by
+  refine ⟨?_, rfl⟩
+  simp only [knownVersions, List.mem_cons, List.not_mem_nil, or_false] at hc hv
+  by_cases h2 : tail = sentinel12
+  · subst h2
+    rcases hc with rfl | rfl | rfl | rfl | rfl <;> rcases hv with rfl | rfl | rfl | rfl | rfl <;> rfl
+  · by_cases h1 : tail = sentinel11
+    · subst h1
+      rcases hc with rfl | rfl | rfl | rfl | rfl <;> rcases hv with rfl | rfl | rfl | rfl | rfl <;> rfl
+    · have e2 : (tail == sentinel12) = false := by simpa using h2
+      have e1 : (tail == sentinel11) = false := by simpa using h1
+      rcases hc with rfl | rfl | rfl | rfl | rfl <;> rcases hv with rfl | rfl | rfl | rfl | rfl <;>
+        simp [Gen.sentinelChecks, firstAlert, Cond.eval, CmpOp.eval, VExp.eval, sentinelOf, clientChecksSentinel,
+          verdictAlert, vlt, vle, e1, e2]
+
+/-- the single FALLBACK_SCSV test of the server is `serverChecksScsv`, stands before the resumption
+    block, the client appends the SCSV exactly under `settings.sendFallbackSCSV`, and every
+    ClientHello it builds (with or without an offered session) carries that list -/
+theorem generated_scsv_check_is_model :
+    Gen.scsvBeforeResumption = true ∧ Gen.scsvMentions = 2 ∧
+    Gen.scsvAppend = [(.flag "sendFallbackSCSV", "wireCipherSuites")] ∧
+    (∀ a ∈ Gen.clientHelloSuites, a = "wireCipherSuites") ∧
+    ∀ smax ∈ knownVersions, ∀ v ∈ knownVersions, ∀ scsv : Bool,
+      firstAlert { version := v, maxVersion := smax, scsv := scsv } Gen.scsvChecks
+        = some (verdictAlert (serverChecksScsv smax v (if scsv then [fallbackScsv] else []))) := by
+  refine ⟨rfl, rfl, rfl, by decide, ?_⟩
+  decide
+
+/-- what enters `_handshake_hash`: every handshake message sent (`msg.write()`), queued or received
+    (raw `p.bytes`), unconditionally; nothing else; the two HRR restarts feed `message_hash` -/
+theorem generated_hash_sites_are_model :
+    Gen.hashSites = [("_sendMsg", "buf", .and (.flag "updateHashes") (.flag "isHandshake")),
+                     ("_queue_message", "serialised_msg", .flag "isHandshake"),
+                     ("_getMsg", "p.bytes", .flag "always")] ∧
+    Gen.otherHashUpdates = [] ∧
+    ("buf", "msg.write()") ∈ Gen.hashedVarDefs ∧ ("serialised_msg", "msg.write()") ∈ Gen.hashedVarDefs ∧
+    Gen.restartSites =
+      [("_clientGetServerHello", "inline",
+        ["writer.add(HandshakeType.message_hash, 1)", "writer.addVarSeq(client_hello_hash.digest(prf_name), 1, 3)",
+         "self._handshake_hash.update(writer.bytes)", "self._handshake_hash.update(hello_retry.write())"]),
+       ("_serverGetClientHello", "self._handshake_hash.digest(prf_name)",
+        ["writer.add(HandshakeType.message_hash, 1)", "writer.addVarSeq(client_hello_hash, 1, 3)",
+         "self._handshake_hash.update(writer.bytes)"])] := by
+  decide
+
+def flows13 : List Flow := [.full13, .hrr13, .psk13, .pskHrr13]
+
+/-- For every TLS 1.3 flow and option set: running the source-ordered message calls of
+    `_clientTLS13Handshake` / `_serverTLS13Handshake` against the flow, each Derive-Secret, Finished
+    digest, CertificateVerify context and the `_first_handshake_hashes` snapshot sees exactly the
+    transcript prefix RFC 8446 prescribes (`specPoints13`), and nothing else is derived. -/
+theorem generated_schedule13_conforms (f : Flow) (o : Opts) (hf : f ∈ flows13) :
+    schedConforms Gen.sched13Client f o = true ∧ schedConforms Gen.sched13Server f o = true := by
+  rcases o with ⟨a, b, c, d, e, g, h⟩
+  simp only [flows13, List.mem_cons, List.not_mem_nil, or_false] at hf
+  rcases hf with rfl | rfl | rfl | rfl <;>
+    cases a <;> cases b <;> cases c <;> cases d <;> cases e <;> cases g <;> cases h <;> decide
+
+/-- <= 1.2: labels of sender and receiver correspond, the whole verify_data is compared (also in
+    1.3), the EMS session hash is frozen right after ClientKeyExchange on both sides -/
+theorem generated_tls12_finished_and_master_secret :
+    Gen.finished12 =
+      [("_sendFinished", "client finished", "server finished", "self._handshake_hash/12", "no comparison"),
+       ("_getFinished", "server finished", "client finished", "self._handshake_hash/12",
+        "finished.verify_data != verifyData")] ∧
+    Gen.finished13Compares =
+      [("_clientTLS13Handshake", "finished.verify_data != verify_data"),
+       ("_serverTLS13Handshake", "cl_finished.verify_data != cl_verify_data")] ∧
+    Gen.emsSnapshots = [("_clientKeyExchange", "send:client_key_exchange"),
+                        ("_serverCertKeyExchange", "recv:client_key_exchange")] ∧
+    Gen.masterSecretCalls =
+      [("extended master secret", "handshake_hashes=cvhh", "ems"),
+       ("master secret", "client_random=client_random;server_random=server_random", "noems")] ∧
+    Gen.masterSecretFallback = ["not cvhh"] := by
+  decide
+
+/-- TLS 1.3: every secret of the key schedule is a function of (PSK, ECDHE, transcript prefix up
+    to the message RFC 8446 prescribes): two transcripts that agree on the first `n` messages give
+    the same secrets for every point `≤ n`; in particular the handshake traffic secrets depend on
+    nothing after ServerHello and nothing at all depends on what follows the client Finished. -/
+theorem keys13_depend_only_on_transcript_prefix (K : Hkdf) (psk ecdhe : Bytes) (pre tr1 tr2 : List Msg)
+    (p : Points13) :
+    (tr1.take p.hs = tr2.take p.hs →
+      (keySchedule13 K psk ecdhe pre tr1 p).sHsTraffic = (keySchedule13 K psk ecdhe pre tr2 p).sHsTraffic ∧
+      (keySchedule13 K psk ecdhe pre tr1 p).cHsTraffic = (keySchedule13 K psk ecdhe pre tr2 p).cHsTraffic) ∧
+    (tr1.take p.ap = tr2.take p.ap →
+      (keySchedule13 K psk ecdhe pre tr1 p).sApTraffic = (keySchedule13 K psk ecdhe pre tr2 p).sApTraffic ∧
+      (keySchedule13 K psk ecdhe pre tr1 p).cApTraffic = (keySchedule13 K psk ecdhe pre tr2 p).cApTraffic) ∧
+    (tr1.take p.cFinished = tr2.take p.cFinished →
+      (keySchedule13 K psk ecdhe pre tr1 p).exporter = (keySchedule13 K psk ecdhe pre tr2 p).exporter) ∧
+    (tr1.take p.res = tr2.take p.res →
+      (keySchedule13 K psk ecdhe pre tr1 p).resumption = (keySchedule13 K psk ecdhe pre tr2 p).resumption) := by
+  refine ⟨?_, ?_, ?_, ?_⟩ <;> intro h <;> simp [keySchedule13, h]
+
+/-- two endpoints with the same PSK and (EC)DHE secret and equal transcripts hold equal secrets -/
+theorem equal_transcripts_equal_secrets13 (K : Hkdf) (psk ecdhe : Bytes) (pre1 pre2 tr1 tr2 : List Msg)
+    (p : Points13) (hpre : pre1 = pre2) (htr : tr1 = tr2) :
+    keySchedule13 K psk ecdhe pre1 tr1 p = keySchedule13 K psk ecdhe pre2 tr2 p := by
+  rw [hpre, htr]
+
+/-- The Finished values of the TLS 1.3 key schedule are the `finishedVerifyData` of the reduction
+    theorem (primitives `prims13`, key = the sender's handshake traffic secret, transcript = the
+    prescribed prefix): `both_complete_transcripts_equal_or_bad_event` speaks about this schedule. -/
+theorem keySchedule13_finished_is_model_finished (K : Hkdf) (psk ecdhe : Bytes) (pre tr : List Msg) (p : Points13) :
+    (keySchedule13 K psk ecdhe pre tr p).sFinished =
+      finishedVerifyData (prims13 K) .server (pre ++ tr.take p.sFinished) (keySchedule13 K psk ecdhe pre tr p).sHsTraffic ∧
+    (keySchedule13 K psk ecdhe pre tr p).cFinished =
+      finishedVerifyData (prims13 K) .client (pre ++ tr.take p.cFinished) (keySchedule13 K psk ecdhe pre tr p).cHsTraffic :=
+  ⟨rfl, rfl⟩
+
+/-- Different prefixes at a Finished give different MAC inputs unless two different transcripts
+    have the same hash (the `HashCollision` event), for TLS 1.3 and below. -/
+theorem finished_inputs_differ_or_collision (H : Bytes → Bytes) (t1 t2 : List Msg)
+    (h1 : ∀ m ∈ t1, m.WF) (h2 : ∀ m ∈ t2, m.WF) (hne : t1 ≠ t2) :
+    H (encAll t1) ≠ H (encAll t2) ∨ (encAll t1 ≠ encAll t2 ∧ H (encAll t1) = H (encAll t2)) := by
+  by_cases h : H (encAll t1) = H (encAll t2)
+  · exact Or.inr ⟨fun he => hne (encAll_inj h1 h2 he), h⟩
+  · exact Or.inl h
+
+/-- TLS ≤ 1.2: verify_data is the model's Finished with the version's PRF and labels, and with the
+    extended master secret the master secret is a function of the transcript through
+    ClientKeyExchange (so equal session transcripts and premaster secrets give equal masters). -/
+theorem verifyData12_is_model_finished (R : Prf12) (master : Bytes) (sender : Side) (tr : List Msg) :
+    verifyData12 R master sender tr = finishedVerifyData (prims12 R) sender tr master ∧
+    ∀ (pms cr1 sr1 cr2 sr2 : Bytes) (s1 s2 : List Msg), s1 = s2 →
+      masterSecret12 R true pms cr1 sr1 (encAll s1) = masterSecret12 R true pms cr2 sr2 (encAll s2) := by
+  refine ⟨rfl, ?_⟩
+  intro pms cr1 sr1 cr2 sr2 s1 s2 h
+  simp [masterSecret12, h]
+
+example : specPoints13 .full13 { certReq := true, clientCert := true } =
+    some { hs := 2, sCertVerify := some 5, sFinished := 6, ap := 7, cCertVerify := some 8, cFinished := 9, res := 10 } := by
+  decide
+example : specPoints12 .full12 { ske := true } = some { ems := some 6, cFinished := 6, sFinished := 7 } := by decide
 
 end Tls.Transcript
